@@ -105,7 +105,7 @@ theorem runView_state {s : State} (h : WF s) (g : GName) (r : ReadOp) :
 
 theorem runView_nsExt {s : State} (h : WF s) (g : GName) (r : ReadOp) : NsExt s (s.runView g r).1 := by
   have h1 := runView_state h g r
-  exact ⟨h1.quads, h1.known, rfl, rfl, rfl, h1.mono⟩
+  exact ⟨h1.quads, h1.known, rfl, rfl, rfl, h1.base, h1.mono⟩
 
 theorem runView_asView {s : State} (h : WF s) (g : GName) (r : ReadOp) :
     (s.runView g r).1.asView g = ((s.asView g).run r).1 := by
